@@ -745,11 +745,14 @@ func (b *bitstream) readDecimal(length uint64) (*Decimal, error) {
 	}
 
 	if length > 0 {
-		if err := b.readBigInt(length, coef); err != nil {
+		neg, err := b.readBigInt(length, coef)
+		if err != nil {
 			return nil, err
 		}
 
-		negZero = coef.Sign() == 0
+		// Negative zero is a zero magnitude with the sign bit set; a zero magnitude without
+		// it is plain zero, however many bytes it was written with.
+		negZero = neg && coef.Sign() == 0
 	}
 
 	return NewDecimal(coef, int32(exp), negZero), nil
@@ -833,11 +836,12 @@ func (b *bitstream) clear() {
 }
 
 // ReadBigInt reads a fixed-length integer of the given length and stores
-// the value in the given big.Int.
-func (b *bitstream) readBigInt(length uint64, ret *big.Int) error {
+// the value in the given big.Int. It reports whether the sign bit was set (a zero
+// magnitude with the sign bit set is negative zero, which big.Int cannot hold).
+func (b *bitstream) readBigInt(length uint64, ret *big.Int) (bool, error) {
 	bs, err := b.readN(length)
 	if err != nil {
-		return err
+		return false, err
 	}
 
 	neg := bs[0]&0x80 != 0
@@ -851,7 +855,7 @@ func (b *bitstream) readBigInt(length uint64, ret *big.Int) error {
 		ret.Neg(ret)
 	}
 
-	return nil
+	return neg, nil
 }
 
 // ReadVarUint reads a variable-length-encoded uint.
